@@ -251,7 +251,196 @@ def _replay_time_average(case, clause, model, seed):
     return {"ran": True, "failed": False, "searched": tried, "detail": "real code satisfies every clause on the model inputs and the seeded inputs"}
 
 
-UNITS = [TimeAverage()]
+# ------------------------------------------------------------------------------------------------
+# spatial_average
+
+RN = "PyMatterSim.neighbors.read_neighbors.read_neighbors"
+_I = z3.IntSort()
+CNF = z3.Function("CNF", _I, _I, _I)            # file record p, particle i: number of neighbours listed in the file
+NBF = z3.Function("NBF", _I, _I, _I, _I)        # file record p, particle i, position t: listed neighbour id - 1
+MAXC = z3.Function("MAXC", _I, _I)              # file record p: largest (truncated) coordination number of the record
+NPF = z3.Int("NPF")                             # particles per record of the file
+TF = z3.Int("TF")                               # number of records (frames) in the file
+
+
+def nb_count(p, i, Nmax):
+    """coordination number read_neighbors reports: min(listed, Nmax)"""
+    return sv.minv(sv.SV(CNF(sv.znum(p), sv.znum(i))), Nmax)
+
+
+def _file_fact(f):
+    """instance of a universally quantified well-formedness fact about the neighbour file (precondition)"""
+    facts = cur().facts
+    t = sv.zb(f)
+    if not any(t.eq(x) for x in facts[-40:]):
+        facts.append(t)
+
+
+def read_neighbors_contract(interp, args, kwargs):
+    """callee contract of read_neighbors(f, nparticle, Nmax) on a neighbour-LIST file (header word 'neighborlist', C05):
+    requires the handle at a record boundary `pos` < TF of a file whose records have `nparticle` rows;
+    returns the int array (nparticle, 1 + maxc): row i = [c, id_1 - 1, .., id_c - 1, 0, ..], c = min(listed, Nmax),
+    maxc = max_i c; the handle is advanced by one record (consecutive calls read consecutive frames)."""
+    f = args[0]
+    nparticle = kwargs.get("nparticle", args[1] if len(args) > 1 else None)
+    Nmax = kwargs.get("Nmax", args[2] if len(args) > 2 else 200)
+    st = cur()
+    cell = st.heap[f.sid]
+    if cell.kind != "file":
+        raise sv.EngineError("read_neighbors on a non-file value")
+    pos = cell.data["pos"]
+    st.require(sv.cmp("==", nparticle, sv.SV(NPF)), "call:read_neighbors:pre:nparticle-is-the-file's-particle-number")
+    st.require(sv.and_(sv.cmp(">=", pos, 0), sv.cmp("<", pos, sv.SV(TF))), "call:read_neighbors:pre:a-record-is-left-in-the-file")
+    st.heap[f.sid] = Content("file", dict(cell.data, pos=A.simp(sv.add(pos, 1))), cell.meta)
+    st.events.append(("store", f.sid, st.where, list(st.pc)))
+    pz = sv.znum(pos)
+    maxc = sv.SV(MAXC(pz))
+    _file_fact(sv.and_(sv.cmp(">=", maxc, 0), sv.cmp("<=", maxc, sv.maxv(Nmax, 0))))
+
+    def elem(idx):
+        i, col = idx
+        c = nb_count(pos, i, Nmax)
+        _file_fact(sv.and_(sv.cmp(">=", sv.SV(CNF(pz, sv.znum(i))), 0), sv.cmp("<=", c, maxc)))
+        if sv.is_conc(col) and col == 0:
+            return c
+        t = A.simp(sv.sub(col, 1))
+        v = sv.SV(NBF(pz, sv.znum(i), sv.znum(t)))
+        # listed ids are particle ids of the same trajectory: 1..nparticle in the file, 0..nparticle-1 after the shift
+        _file_fact(sv.implies(sv.and_(sv.cmp(">=", t, 0), sv.cmp("<", t, c)), sv.and_(sv.cmp(">=", v, 0), sv.cmp("<", v, sv.SV(NPF)))))
+        return sv.ite(sv.cmp("==", col, 0), c, sv.ite(sv.cmp("<", t, c), v, 0))
+    return A.new_arr((nparticle, A.simp(sv.add(maxc, 1))), elem, "int")
+
+
+class SpatialAverage(Unit):
+    module = MOD
+    qualname = "spatial_average"
+    prop = "C16"
+    timeout = 20
+    summaries = {RN: read_neighbors_contract}
+    solver_opts = {"ext_all": True}     # Σ extensionality also between sums whose bounds are equal only under the path condition
+
+    def cases(self):
+        return ["rank0/float", "rank1/float", "rank2/float", "rank1/complex", "rank0/float/outputfile"]
+
+    def setup(self, ctx, case):
+        parts = case.split("/")
+        rank, dt = int(parts[0][4]), parts[1]
+        T, N, Nmax = ctx.int("T"), ctx.int("N"), ctx.int("Nmax")
+        ctx.assume(T >= 1)
+        ctx.assume(N >= 1)
+        ctx.assume(Nmax >= 0)
+        ctx.assume(sv.cmp("==", sv.SV(NPF), N))       # the neighbour file belongs to this trajectory
+        ctx.assume(sv.cmp(">=", sv.SV(TF), T))
+        dims = [ctx.int(f"d{k}") for k in range(rank)]
+        for dd in dims:
+            ctx.assume(dd >= 1)
+        Aarr = ctx.array("A", tuple([T, N] + dims), dt, origin="argument input_property")
+        out = "cg.npy" if len(parts) > 2 else ""
+        inp = dict(T=T, N=N, Nmax=Nmax, A=Aarr, dims=dims, rank=rank, watch=[Aarr.sid], outputfile=out)
+        return [Aarr, "neighborlist.dat"], {"Nmax": Nmax, "outputfile": out}, inp
+
+    def clause_names(self, case):
+        return ["shape", "neighbour-mean:self+listed-neighbours/(1+cn)-frame-by-frame", "frame:input-not-written", "saved-file=returned"]
+
+    def ensures(self, ctx, case, inp, out):
+        T, N, Nmax, Aarr, dims = inp["T"], inp["N"], inp["Nmax"], inp["A"], inp["dims"]
+        res = out.value
+        ok = isinstance(res, A.Arr) and res.ndim == 2 + len(dims)
+        if not ok:
+            yield "shape", False
+            return
+        yield "shape", sv.and_(*[sv.cmp("==", a, b) for a, b in zip(res.shape, [T, N] + dims)])
+        n, i = ctx.int("n"), ctx.int("i")
+        tr = [ctx.int(f"a{k}") for k in range(len(dims))]
+        rng = _inr((n, T), (i, N), *zip(tr, dims))
+        ar = Aarr.reader()
+        c = nb_count(n, i, Nmax)                       # record n of the file is used for frame n
+        want = sv.div(sv.add(ar(tuple([n, i] + tr)),
+                             Sum(0, c, lambda t: ar(tuple([n, sv.SV(NBF(n.t, i.t, sv.znum(t)))] + tr)))), sv.add(1, c))
+        yield "neighbour-mean:self+listed-neighbours/(1+cn)-frame-by-frame", sv.implies(rng, sv.cmp("==", res.get(tuple([n, i] + tr)), want))
+        yield "frame:input-not-written", len(_stores(out, inp["watch"])) == 0
+        saves = [e for e in out.state.trace if e[0] == "np.save"]
+        if inp["outputfile"]:
+            good = len(saves) == 1 and saves[0][1] == inp["outputfile"]
+            if good:
+                sa = saves[0][2]
+                good = sa.ndim == res.ndim and sv.implies(rng, sv.cmp("==", sa.get(tuple([n, i] + tr)), res.get(tuple([n, i] + tr))))
+            yield "saved-file=returned", good
+        else:
+            yield "saved-file=returned", len(saves) == 0
+
+    def replay(self, case, clause, model, seed):
+        return _replay_spatial(case, clause, model, seed)
+
+
+def _replay_spatial(case, clause, model, seed):
+    import importlib
+    import os
+    import tempfile
+
+    import numpy as np
+    P = importlib.import_module(MOD)
+    parts = case.split("/")
+    rank, dt = int(parts[0][4]), parts[1]
+    rng = np.random.default_rng(seed)
+    tried = 0
+    tmp = tempfile.mkdtemp(prefix="pyvc-c16-")
+    try:
+        for k in range(120):
+            T = int(rng.integers(1, 4))
+            N = int(rng.integers(1, 7)) if k % 5 else 1
+            Nmax = int(rng.choice([0, 1, 2, 3, 30]))
+            dims = [int(rng.integers(1, 4)) for _ in range(rank)]
+            Ain = rng.normal(size=[T, N] + dims)
+            if dt == "complex":
+                Ain = Ain + 1j * rng.normal(size=Ain.shape)
+            lists = []
+            path = os.path.join(tmp, f"nl{k}.dat")
+            with open(path, "w") as f:
+                for n in range(T):
+                    f.write("id     cn     neighborlist\n")
+                    fr = []
+                    for i in range(N):
+                        cn = int(rng.integers(0, min(N, 5)))
+                        nb = [int(x) for x in rng.choice([j for j in range(N) if j != i], size=cn, replace=False)] if cn else []
+                        fr.append(nb)
+                        f.write("%d %d %s\n" % (i + 1, cn, " ".join(str(j + 1) for j in nb)))
+                    lists.append(fr)
+            keep = Ain.copy()
+            outp = os.path.join(tmp, f"out{k}.npy") if len(parts) > 2 else ""
+            tried += 1
+            inputs = {"T": T, "N": N, "Nmax": Nmax, "trailing": dims, "neighbours": lists[:2]}
+            try:
+                R = P.spatial_average(Ain, path, Nmax=Nmax, outputfile=outp)
+            except Exception as e:
+                return {"ran": True, "failed": True, "inputs": inputs, "detail": f"raises {type(e).__name__}: {e}", "searched": tried}
+            bad = None
+            if R.shape != keep.shape:
+                bad = f"shape {R.shape} != {keep.shape}"
+            elif not np.array_equal(keep, Ain):
+                bad = "input_property was modified"
+            else:
+                for n in range(T):
+                    for i in range(N):
+                        nb = lists[n][i][:Nmax]
+                        want = (keep[n, i] + sum((keep[n, j] for j in nb), 0 * keep[n, i])) / (1 + len(nb))
+                        if not np.allclose(R[n, i], want, rtol=1e-9, atol=1e-12):
+                            bad = f"out[{n},{i}] = {np.asarray(R[n, i]).tolist()}, mean over self and neighbours {nb} is {np.asarray(want).tolist()}"
+                            break
+                    if bad:
+                        break
+            if not bad and outp:
+                if not os.path.exists(outp) or not np.array_equal(np.load(outp), R):
+                    bad = "saved file differs from the returned array"
+            if bad:
+                return {"ran": True, "failed": True, "searched": tried, "inputs": inputs, "detail": bad}
+    finally:
+        import shutil
+        shutil.rmtree(tmp, ignore_errors=True)
+    return {"ran": True, "failed": False, "searched": tried, "detail": "real code satisfies every clause on the seeded inputs"}
+
+
+UNITS = [TimeAverage(), SpatialAverage()]
 
 MANIFEST = {
     "text": "tbd",
